@@ -88,8 +88,12 @@ def _relevant(effects):
             a, b = _relevant(e[2]), _relevant(e[3])
             if a or b:
                 out.append(("if", e[1], tuple(a), tuple(b)))
-        elif e[0] in ("store", "raise", "del", "return"):
+        elif e[0] in ("store", "raise", "del", "return", "with", "endwith"):
             out.append(e)
+        elif e[0] == "maybe":
+            inner = _relevant(e[1])
+            if inner:
+                out.append(("maybe", tuple(inner)))
         elif e[0] == "call" and not e[1].startswith(("self.logger.", "self._logger.", "logging.", "logger.", "print(", "warnings.")) and not e[1].startswith(tuple(IGNORE)):
             out.append(e)
     return out
